@@ -44,13 +44,25 @@ package local
 //@   pure
 //@   ensures result1 == smhas(&c.flowControls, box(name)) && (result1 ==> result == smget(&c.flowControls, box(name))) && (!result1 ==> result == nil)
 
-//@ func (*upstreamCondition).syncLocalFlowControls props C16
+// (C08) After a sync, every schema of the latest spec that has a global limit is served by a limiter object of the kind
+// that schema asks for (max-in-flight for GlobalMaxRequestsInflight, token bucket for GlobalTokenBucket) -- also when an
+// existing schema name changes its kind. Stated for specs validation accepts (unique names, the global limit of the same
+// kind as the local one). Proved as the invariant of the pass over the latest spec; that the deletion pass afterwards removes
+// only names that are no longer listed is not part of it.
+//@ const GS = flowControls.Schemas
+//@ const GFM = &c.flowControls
+//@ const gsValid = (forall i int, j int :: {GS[i], GS[j]} 0 <= i && i < j && j < len(GS) ==> GS[i].Name != GS[j].Name) && (forall i int :: {GS[i]} 0 <= i && i < len(GS) ==> (GS[i].GlobalMaxRequestsInflight != nil ==> GS[i].MaxRequestsInflight != nil && GS[i].Exempt == nil) && (GS[i].GlobalTokenBucket != nil ==> GS[i].TokenBucket != nil && GS[i].MaxRequestsInflight == nil && GS[i].GlobalMaxRequestsInflight == nil && GS[i].Exempt == nil))
+//@ const gfmConcrete = forall k ref :: {smhas(GFM, k)} smhas(GFM, k) ==> smget(GFM, k) != nil && (typeis(smget(GFM, k), "*flowcontrol.globalMaxInflight") || typeis(smget(GFM, k), "*flowcontrol.globalTokenBucket"))
+//@ func (*upstreamCondition).syncLocalFlowControls props C16, C08
 //@   requires [recv] c != nil
-//@   requires [typed] forall k ref :: {smhas(&c.flowControls, k)} smhas(&c.flowControls, k) ==> smget(&c.flowControls, k) != nil
+//@   requires [typed] gfmConcrete
+//@   requires [valid_spec] gsValid onlyfor C08
 //@   panics-never
 //@   modifies *
 //@   loop 0: invariant [t] true
-//@   loop 1: invariant [typed] forall k ref :: {smhas(&c.flowControls, k)} smhas(&c.flowControls, k) ==> smget(&c.flowControls, k) != nil
+//@   loop 1: invariant [typed] gfmConcrete
+//@   loop 1: invariant [bounds] 0 <= idx && idx <= len(GS)
+//@   loop 1: invariant [kinds] gsValid ==> forall i int :: {GS[i]} 0 <= i && i < idx && (GS[i].GlobalTokenBucket != nil || GS[i].GlobalMaxRequestsInflight != nil) ==> smhas(GFM, box(GS[i].Name)) && (GS[i].GlobalMaxRequestsInflight != nil ? typeis(smget(GFM, box(GS[i].Name)), "*flowcontrol.globalMaxInflight") : typeis(smget(GFM, box(GS[i].Name)), "*flowcontrol.globalTokenBucket"))
 
 // ---- the in-memory store's condition map (what the LimitStore stubs of C07 / C18 stand for in local mode) ----
 //@ const CLS = &s.clusters
